@@ -104,7 +104,10 @@ def run(cx):
             aw = await_target(c)
             if aw is not None:
                 return "await(yield_now)" if aw.endswith("yield_now") else "await(" + aw.split("::")[-1] + ")"
-            for nm, sym in ((f"{MGR}::handle_connectivity_check", "check"), (f"{MGR}::dial_peer", "connect_request"), (f"{MGR}::handle_incoming", "incoming"),
+            # (the forwarder handle_incoming is always inlined: an accepted connection is handed to handle_incoming_task on pending_connections)
+            if name_matches(c.fn, "tokio::task::join_set::JoinSet::spawn") and term_has_call(o.of_operand(c.args[1]), f"{MGR}::handle_incoming_task"):
+                return "incoming" if mentions_field(o.of_operand(c.args[0]), "pending_connections") else "incoming(?)"
+            for nm, sym in ((f"{MGR}::handle_connectivity_check", "check"), (f"{MGR}::dial_peer", "connect_request"),
                             (f"{MGR}::handle_connecting_result", "connecting_result"), (f"{MGR}::shutdown", "shutdown"), ("panic::resume_unwind", "reraise"),
                             ("result::Result::unwrap", "unwrap!"), ("result::Result::expect", "expect!")):
                 if name_matches(c.fn, nm):
@@ -332,7 +335,7 @@ def run(cx):
             "tokio::task::spawn::spawn": {"anemo::network::Builder::start": "the connection-manager task (ends when shutdown() returns)"},
             "tokio::task::join_set::JoinSet::spawn": {
                 f"{MGR}::add_peer": "connection handler on self.connection_handlers (drained by shutdown)",
-                f"{MGR}::handle_incoming": "inbound handshake on self.pending_connections (shut down by shutdown)",
+                f"{MGR}::start": "inbound handshake on self.pending_connections (shut down by shutdown) - the accept arm (handle_incoming is always inlined)",
                 f"{MGR}::dial_peer": "outbound dial on self.pending_connections",
                 f"{RH_}::InboundRequestHandler::start": "request task on the handler's local JoinSet (shut down at handler exit, C12.4)"},
             "tokio::task::blocking::spawn_blocking": {"anemo::types::address::Address::resolve": "DNS resolution, awaited in place; holds only the address"},
@@ -379,7 +382,7 @@ def run(cx):
         lb = loop_body(cx)
         sh = cx.coroutine(f"{MGR}::shutdown")
         ents = [f"{MGR}::start", f"{MGR}::shutdown", cx.impl_method(MGR, "Drop", "drop").path, f"{MGR}::handle_connectivity_check", f"{MGR}::handle_connecting_result",
-                f"{MGR}::handle_incoming", f"{MGR}::dial_peer", f"{MGR}::dial_peer_task", f"{MGR}::add_peer",
+                f"{MGR}::dial_peer", f"{MGR}::dial_peer_task", f"{MGR}::add_peer",
                 "anemo::types::address::Address::resolve", f"{EP}::close", f"{EP}::wait_idle", f"{EP}::rebind", f"{EP}::local_addr",
                 f"{NI}::connect", f"{NI}::shutdown", f"{NI}::disconnect", f"{NI}::peer", f"{NI}::peers", f"{NI}::rpc", f"{NI}::is_closed", "anemo::network::NetworkRef::upgrade",
                 "anemo::network::Network::subscribe"]
